@@ -70,6 +70,7 @@ type synFilter struct {
 	flags      func(i int) []string
 	simpleLex  bool
 	family     func(i int) string // template family for the i-th grammar ("" = random)
+	noStrLits  func(i int) bool   // named tokens only (expected-token lists made of identifiers)
 }
 
 // genSynJobs generates n grammars passing the filter (deterministic in rng).
@@ -79,6 +80,9 @@ func genSynJobs(rng *rand.Rand, n int, prefix string, f synFilter) []*SynJob {
 		o := gram.SynGenOpts{WithErrors: f.withErrors, Ambiguous: f.ambiguous}
 		if f.family != nil {
 			o.Family = f.family(len(jobs))
+		}
+		if f.noStrLits != nil {
+			o.NoStrLits = f.noStrLits(len(jobs))
 		}
 		g := gram.GenSyntax(rng, o)
 		gram.AssignActions(rng, g, f.actionMode)
